@@ -27,7 +27,12 @@
    machinery failure, never as acceptance).  Values are compared as integers scaled by 10^4 with
    pi ~ 314159/100000 and a tolerance of +-2 units; the generators keep |b| <= 40 so the error of
    the approximation of pi stays below 1.1 units.  The value of a function call is NOT decided
-   here ("opaque": only that the program is accepted and the rest of it is right). *)
+   here ("opaque": only that the program is accepted and the rest of it is right).
+
+   Flat(P) is the denotation; JudgeWith(P, obs, strict, Flat(P)) compares an observed flat list with it,
+   per qubit, and names the first difference as <<clause, what, feature, gate>> (the fields of the
+   finding key).  Used by QasmCheck.tla (observations of BQSKit / Qiskit) and QasmGen.tla (TLC enumerates
+   programs and checks consistency properties of these very definitions). *)
 EXTENDS Naturals, Integers, Sequences, FiniteSets, TLC
 
 Range(s) == {s[i] : i \in 1..Len(s)}
